@@ -102,6 +102,10 @@ def model(v, tier):
                     last_state_has(r.out, "earlyOther", "FALSE"):
                 f2_in_model = True
                 save_replay(PROP, "F2_model_counterexample.tlc.out", r.out)
+                v.samples.append({"model_counterexample": "NotifyNotEarly (property as stated) on ProgF2", "class": "F2",
+                                  "depth": r.depth, "schedule": "T3 notify(n) on the empty group reads state 0 and decides "
+                                  "to fire; T2 enter; T2 notify(m) pushes behind n (no RMW); T3 snapshots {n,m} and submits "
+                                  "m while T2's work is outstanding", "last_state": {"earlyF2": True, "earlyOther": False}})
             elif r.violated:
                 p = save_replay(PROP, "early_not_F2.tlc.out", r.out)
                 v.violation("spec violates NotifyNotEarly outside the known class F2 (%s)" % r.violated, p)
@@ -156,7 +160,7 @@ def context(r):
 
 def traces(v, tier, seed):
     drv = build_driver("drv_group")
-    runs = 6 if tier == "quick" else 48
+    runs = 6 if tier == "quick" else 32
     execs, ops = (25, 14) if tier == "quick" else (40, 18)
     d = rundir(PROP)
     args = [(i, seed * 1000 + i, [2, 3, 1][i % 3], execs, ops, 1 if tier == "quick" else 2, drv, d) for i in range(runs)]
